@@ -393,6 +393,14 @@ void run_pki(uint64_t seed, const sk_mask* mask, sk_result* out)
 	else
 		m = PL[sk_below(&r, 4)];
 	sk_bytes(&r, key, m), sk_bytes(&r, pwd, 64), sk_bytes(&r, salt, 8);
+	{
+		/* passwords without zero octets: belt-hmac pads its key with zeros, so a password and the same
+		   password followed by zero octets ARE the same PBKDF2 input - not two different passwords */
+		size_t i;
+		for (i = 0; i < 64; ++i)
+			if (pwd[i] == 0)
+				pwd[i] = (octet)(1 + i);
+	}
 	if (share)
 		key[0] = (octet)(1 + key[0] % 16);
 	pl = sk_below(&r, 33);
@@ -414,7 +422,17 @@ void run_pki(uint64_t seed, const sk_mask* mask, sk_result* out)
 	{
 	case 1: stored[sk_below(&r, (uint32_t)n)] ^= (octet)(1u << sk_below(&r, 8)); sk_count("fault.pki_stored_bit_flip", 1); break;
 	case 2: n -= 1 + sk_below(&r, 8); sk_count("fault.pki_truncated", 1); break;
-	case 3: pwd[pl ? sk_below(&r, (uint32_t)pl) : 0] ^= 1; if (!pl) pl = 1; sk_count("fault.pki_wrong_password", 1); break;
+	case 3:
+	{
+		size_t at = pl ? sk_below(&r, (uint32_t)pl) : 0;
+		pwd[at] ^= 1;
+		if (pwd[at] == 0)
+			pwd[at] = 2;   /* keep it zero-free (see above) and different from the original 1 */
+		if (!pl)
+			pl = 1;
+		sk_count("fault.pki_wrong_password", 1);
+		break;
+	}
 	case 4: pl = pl ? pl - 1 : 1; sk_count("fault.pki_wrong_password", 1); break;
 	}
 	memset(got, 0xEE, sizeof(got));
